@@ -8,6 +8,9 @@ CHECKS = {
  "C01": (True, "proptest choice-stream PBT: exact rational model + double-double backward-error oracle, row-permutation metamorphic relation; libFuzzer on the same decoder (thorough)",
          "Generated-input search: hundreds of thousands of structured systems (P*L*U, planted zero/tiny pivots, scalings) per run over rat/f64/cmplx, each judged exactly (rationals) or by a normwise backward-error bound; held on everything explored, no proof of absence.",
          "Trusted: the harness's i128 rational arithmetic, its double-double residual, the reference GEPP growth factor; float systems limited to cond <= 1e10.", "5/C01"),
+ "C02": (True, "proptest choice-stream PBT: exact fraction-elimination determinant/inverse oracle over rationals and Gaussian rationals, det(A^T)/det(AB) laws, bitwise operand snapshots; libFuzzer on the same decoder (thorough)",
+         "Generated-input search over structured singular and nonsingular matrices of order 1..8 in three element types; determinant and inverse compared with exact linear algebra; held on everything explored.",
+         "Trusted: i128 rational elimination oracle, Hadamard/condition-number based float bounds (constants calibrated with >100x head-room).", "5/C02"),
 }
 NOT_YET = "check not built yet in this revision of /verif (work in progress); the design for it is in DESIGN.md section 5"
 
